@@ -22,7 +22,7 @@ VARIABLES ring,       \* indices in the frame ring; -1 is the pre-seeded "previo
           dpos, chunkLo, chunkHi, calls,
           reachedEnd, encErr, errRing,
           sstate, stopc, pausec, loaded, consumer,   \* sound state, pending stop / pause, in the track, frame consumer alive
-          dpc,        \* decoder thread: "none" | "top" | "wait" | "err" | "end" | "pushed" | "errpushed" | "exited"
+          dpc,        \* decoder thread: "none" | "top" | "wait" | "endsleep" | "err" | "end" | "pushed" | "errpushed" | "exited"
           apc, aleft, aout, astate0,         \* callback in progress (fine mode)
           popped, cb, lock,
           act, ev, mon, bad
@@ -108,6 +108,11 @@ DBody ==
   /\ IF sstate = "Stopped" \/ ~consumer
      THEN /\ dpc' = "end" /\ ev' = [a |-> "dec", site |-> "end", prod |-> Prod]
           /\ UNCHANGED <<ring, dpos, chunkLo, chunkHi, calls, reachedEnd, encErr, errRing, lock>>
+     \* all of the audio has been decoded: the thread stays (a seek could bring the position back - not modelled here) and
+     \* sleeps until the sound is Stopped or abandoned; it comes back to dec.top a millisecond later (run_after_end)
+     ELSE IF reachedEnd
+     THEN /\ dpc' = "top" /\ ev' = [a |-> "dec", site |-> "top", prod |-> Prod, ms |-> 1]
+          /\ UNCHANGED <<ring, dpos, chunkLo, chunkHi, calls, reachedEnd, encErr, errRing, lock>>
      ELSE IF Len(ring) >= R
      THEN /\ dpc' = "wait" /\ ev' = [a |-> "dec", site |-> "wait", prod |-> Prod]
           /\ UNCHANGED <<ring, dpos, chunkLo, chunkHi, calls, reachedEnd, encErr, errRing, lock>>
@@ -124,7 +129,7 @@ DBody ==
           /\ dpos' = dpos + 1
           /\ UNCHANGED <<encErr, errRing>>
           /\ IF dpos + 1 >= Len0
-             THEN IF Replayable THEN reachedEnd' = TRUE /\ dpc' = "end" /\ ev' = [a |-> "dec", site |-> "end", prod |-> Prod + 1] /\ UNCHANGED lock
+             THEN IF Replayable THEN reachedEnd' = TRUE /\ dpc' = "endsleep" /\ ev' = [a |-> "dec", site |-> "end", prod |-> Prod + 1] /\ UNCHANGED lock
                   ELSE UNCHANGED reachedEnd /\ dpc' = "pushed" /\ ev' = [a |-> "tau"] /\ UNCHANGED lock
              ELSE /\ UNCHANGED <<reachedEnd, lock>> /\ dpc' = "top" /\ ev' = [a |-> "dec", site |-> "top", prod |-> Prod + 1]
   /\ UNCHANGED <<sstate, stopc, pausec, loaded, consumer, apc, aleft, aout, astate0, popped, cb>>
@@ -132,12 +137,12 @@ DBody ==
 \* fine mode: the flag store that follows the last push / the error push
 DFlag ==
   /\ dpc \in {"pushed", "errpushed"} /\ act' = <<"DStep">>
-  /\ IF dpc = "pushed" THEN reachedEnd' = TRUE /\ dpc' = "end" /\ ev' = [a |-> "dec", site |-> "end", prod |-> Prod] /\ UNCHANGED encErr
+  /\ IF dpc = "pushed" THEN reachedEnd' = TRUE /\ dpc' = "endsleep" /\ ev' = [a |-> "dec", site |-> "end", prod |-> Prod] /\ UNCHANGED encErr
      ELSE encErr' = TRUE /\ dpc' = "err" /\ ev' = [a |-> "dec", site |-> "err", prod |-> Prod] /\ UNCHANGED reachedEnd
   /\ UNCHANGED <<ring, dpos, chunkLo, chunkHi, calls, errRing, sstate, stopc, pausec, loaded, consumer, apc, aleft, aout, astate0, popped, cb, lock>>
 
-DSleep == \* dec.wait -> sleep -> dec.top
-  /\ dpc = "wait" /\ lock = "none"
+DSleep == \* dec.wait (or dec.end.reached: the audio has run out, the thread stays) -> sleep -> dec.top
+  /\ dpc \in {"wait", "endsleep"} /\ lock = "none"
   /\ dpc' = "top" /\ act' = <<"DStep">> /\ ev' = [a |-> "dec", site |-> "top", prod |-> Prod]
   /\ UNCHANGED <<ring, dpos, chunkLo, chunkHi, calls, reachedEnd, encErr, errRing, sstate, stopc, pausec, loaded, consumer, apc, aleft, aout, astate0, popped, cb, lock>>
 
@@ -230,8 +235,9 @@ FairSpec == Spec /\ WF_vars((DStart \/ DBody \/ DFlag \/ DSleep \/ DExit) /\ Mon
 PropertyHolds == bad = ""
 RingBounded == Len(ring) <= R
 \* the thread ends once the sound has finished, been stopped, failed, been rejected or been discarded
-ThreadEnds == (dpc \notin {"none"} /\ (sstate = "Stopped" \/ ~consumer \/ reachedEnd \/ encErr)) ~> (dpc = "exited" \/ cb >= MaxCb)
-ThreadEndsHard == []((dpc \notin {"none", "start"} /\ (~consumer \/ encErr \/ reachedEnd \/ sstate = "Stopped")) => <>(dpc = "exited"))
+ThreadEnds == (dpc \notin {"none"} /\ (sstate = "Stopped" \/ ~consumer \/ encErr)) ~> (dpc = "exited" \/ cb >= MaxCb)
+\* (the sound "has finished" when it is Stopped - having decoded everything is not enough, see DBody)
+ThreadEndsHard == []((dpc \notin {"none", "start"} /\ (~consumer \/ encErr \/ sstate = "Stopped")) => <>(dpc = "exited"))
 W_Starved == ~(apc = "idle" /\ cb > 1 /\ Len(ring) < 2 /\ ~reachedEnd /\ loaded /\ sstate = "Playing")
 W_Wait == dpc # "wait"
 W_Err == ~encErr
